@@ -126,6 +126,26 @@ Fixpoint nullable (D : defs) (fuel : nat) (s : schema) {struct fuel} : bool :=
 
 Definition NFUEL : nat := 4.
 
+(* EFFECTIVE closedness of a schema read as a conjunction (independent of how typify merges): an object is
+   closed iff the node itself, ANY conjunct of its allOf, or the target of its "$ref" is closed - whatever the
+   other conjuncts say (additionalProperties absent / true / a schema) and in whatever order *)
+Fixpoint eff_closed (D : defs) (fuel : nat) (s : schema) {struct fuel} : bool :=
+  match fuel with
+  | O => false
+  | S f =>
+      match s with
+      | SBool _ => false
+      | SObj _ _ _ _ _ _ _ _ _ _ _ _ _ _ ap _ _ allo _ _ _ ref _ _ =>
+          is_closed ap
+          || match allo with Some bs => existsb (eff_closed D f) bs | None => false end
+          || match ref with
+             | Some r => match resolve_ref D r with Some s' => eff_closed D f s' | None => false end
+             | None => false
+             end
+      end
+  end.
+Definition CFUEL : nat := 6.
+
 (* the required members whose absence is a violation C05 speaks about *)
 Definition req_enf (D : defs) (props : list (ustring * schema)) (req : list ustring) : list ustring :=
   filter (fun k => match assoc k props with
@@ -560,6 +580,29 @@ Section Exact.
               end
           end.
 
+      (* an allOf node: nothing is claimed about the merged members, but a conjunction that is effectively
+         closed must be a struct with deny_unknown_fields and no flattened member *)
+      Definition allof_x (closed : bool) : nat -> id -> bool :=
+        fix go (ft : nat) (t : id) {struct ft} : bool :=
+          match ft with
+          | O => false
+          | S ft' =>
+              match get_det T t with
+              | None => false
+              | Some d =>
+                  match wrapper_of d with
+                  | Some t' => go ft' t'
+                  | None =>
+                      match d with
+                      | DOption t' => go ft' t'
+                      | DStruct _ _ ps deny =>
+                          negb closed || (deny && match flat_props ps with [] => true | _ => false end)
+                      | _ => negb closed
+                      end
+                  end
+              end
+          end.
+
       Definition exact_obj (t : id) : bool :=
         match ref with
         | Some r => ref_x r FT t
@@ -567,7 +610,9 @@ Section Exact.
             match allo, anyo, oneo with
             | None, None, None => go_plain false false FT t
             | None, Some bs, None | None, None, Some bs => union_x bs FT t
-            | _, _, _ => true                                     (* allOf: nothing claimed *)
+            | Some bs, None, None =>
+                allof_x (is_closed ap || existsb (eff_closed D CFUEL) bs) FT t
+            | _, _, _ => true                                     (* allOf next to anyOf/oneOf: nothing claimed *)
             end
         end.
     End Obj.
